@@ -45,7 +45,9 @@ TARGETS = ['scalar_f', 'scalar_i', 'scalar_u', 'scalar_d', 'scalar0_d', 'vector'
            # class-specific operator overrides (Matrix3.__mul__/__imul__, Quaternion products, Polynomial ring, shape ())
            'matrix3', 'quaternion', 'polynomial', 'scalar0', 'vector0_d', 'bool0',
            # a writable object whose mask array cannot be written (a mask with fewer axes is broadcast by the constructor)
-           'scalar_bmask', 'vector_bmask']
+           'scalar_bmask', 'vector_bmask',
+           # the base class with items and a derivative (zero derivatives are built by Qube.zeros)
+           'qube_items_d']
 
 
 def make_target(name, Pm, readonly=False):
@@ -87,6 +89,9 @@ def make_target(name, Pm, readonly=False):
         x.insert_deriv('t', Pm.Vector(A([4., 5., 6.])))
     elif name == 'bool0':
         x = Pm.Boolean(True)
+    elif name == 'qube_items_d':
+        x = Pm.Qube(np.arange(6.).reshape(3, 2) + 1., A([False, True, False]), nrank=1)
+        x.insert_deriv('t', Pm.Qube(np.ones((3, 2)), nrank=1))
     elif name == 'scalar_bmask':
         x = Pm.Scalar(np.arange(6.).reshape(2, 3) + 1., A([False, True, False]))
     elif name == 'vector_bmask':
